@@ -10,7 +10,12 @@ Inductive call :=
 (* Uint64-based functions draw from the runtime directly: observed only *)
 | RInt63n (n : Z) | RUint64n (n : Z) | RInt63 | RInt | RFloat64 | RIntnBig (n : Z)
 (* frequency sanity: OList = how often each residue 0..n-1 came up in [total] draws of Intn n *)
-| RFreq (n total : Z).
+| RFreq (n total : Z)
+(* values of Int63n n for a small n, counted per value; residues mod m of Intn n for a large n (m | n) *)
+| RFreq63 (n total : Z)
+| RFreqMod (n m total : Z)
+(* Shuffle(n, swap) for a huge n, aborted by the callback after the first swap: OPairs [(i, j)] *)
+| RShuffleBig (n : Z).
 
 Inductive obs := OVal (v : Z) | OList (l : list Z) | OPairs (l : list (Z * Z)) | OPanic.
 
@@ -59,7 +64,13 @@ Definition prop_ok (c : call) (o : obs) : bool :=
       Nat.eqb (length b') (length buf) && zlist_eqb (firstn off b') (firstn off buf)
       && zlist_eqb (skipn (off + len) b') (skipn (off + len) buf)
       && forallb (fun x => in_range 256 x) b'
-  | RFreq n total, OList cnt =>
+  | RFreqMod n m total, OList cnt =>
+      Nat.eqb (length cnt) (Z.to_nat m) && (fold_left Z.add cnt 0 =? total)
+      && forallb (fun c => (85 * total <=? 100 * c * m) && (100 * c * m <=? 115 * total)) cnt
+  | RShuffleBig n, OPairs sw =>
+      (0 <=? n) && forallb (fun ij => in_range n (fst ij) && in_range n (snd ij) && (snd ij <=? fst ij)) sw
+  | RShuffleBig n, OPanic => n <? 0
+  | (RFreq n total | RFreq63 n total), OList cnt =>
       Nat.eqb (length cnt) (Z.to_nat n) && (fold_left Z.add cnt 0 =? total)
       && forallb (fun c => (total <=? 2 * c * n) && (c * n <=? 2 * total)) cnt
   | _, _ => false
